@@ -185,4 +185,25 @@ def closest_point_triangle(a, b, c):
         return (b + w * bc, 6)
     return (n * (a + b + c).dot(n) / (3.0 * n_len_sq), 7)
 ''', ["SILENT"]),
+    # C19-r5 repaired: the iteration counter as a flag loop that ends on every terminal state
+    M(["C19", "C01"], "benign-jolt-iterations-flag-loop", JO, "gjk_distance_jolt_iterations", "<FUNCTION>", '''
+def gjk_distance_jolt_iterations(collider1, collider2, tolerance=1e-10, max_distance_squared=100000.0):
+    Y = np.empty((4, 3))
+    P = np.empty((4, 3))
+    Q = np.empty((4, 3))
+    n_points = 0
+    tolerance_sq = tolerance * tolerance
+    search_direction = np.array([1.0, 0.0, 0.0])
+    v_len_sq = np.dot(search_direction, search_direction)
+    prev_v_len_sq = MAX_FLOAT
+    iterations = 0
+    converged = False
+    while not converged:
+        iterations += 1
+        p = collider1.support_function(search_direction)
+        q = collider2.support_function(-search_direction)
+        state, n_points, prev_v_len_sq, v_len_sq = _distance_loop(p, q, Y, P, Q, n_points, tolerance_sq, prev_v_len_sq, v_len_sq, search_direction, max_distance_squared)
+        converged = state != GjkState.Unknown
+    return iterations
+''', ["SILENT"]),
 ]
